@@ -117,6 +117,10 @@ def spaces(tier, seed):
     sp.append(Product("sweep-minute-of-day", {"y": [2024], "md": [(2, 29), (12, 31)],
                                               "t": [(h, mi, s, 0) for h in range(24) for mi in range(60) for s in (0, 59)],
                                               "r": REND_TIME, "lang": ["en"]}))
+    from ..oddities import ODD
+    sp.append(Product("after-an-odd-string", {"odd": range(len(ODD)), "y": [7, 2024], "md": [(3, 5), (12, 31)], "t": [(3, 30, 0, 0), (15, 7, 9, 120000), (0, 15, 0, 0)],
+                                              "r": RENDERINGS, "lang": ["en", "auto"]},
+                      note="two-call history inside the case: an odd (lenient-path) string is parsed first, with the same language selection"))
     us_vals = [0, 1, 5, 9, 10, 99, 100, 999, 1000, 99999, 100000, 123456, 500000, 999999, 900000, 90000, 9000, 900, 90]
     sp.append(Product("sweep-microsecond", {"y": [1, 2024, 9999], "md": [(12, 31)],
                                             "t": [(H, M, S, u) for (H, M, S) in ((0, 0, 0), (23, 59, 59), (12, 0, 9)) for u in us_vals],
@@ -253,6 +257,9 @@ def run_case(sub, c):
             "cls": {"form": "epoch", "neg": c["neg"], "suffix_len": len(c["suffix"]), "tz": bool(c["tz"]),
                     "kind": "exception:" + o[1] if o[0] == "exc" else "wrong-value"},
             "expected": (exp, "day"), "observed": got, "detail": {"string": s, "settings": st}}
+    if "odd" in c:
+        from ..oddities import ODD
+        api.outcome_of(api.gdd, ODD[c["odd"]], None if c["lang"] == "auto" else ["en"], None, None, None)
     if "ord" in c:
         y, m, d = cal.from_ordinal(c["ord"])
     else:
